@@ -1235,7 +1235,12 @@ fn space_seeds(ctx: &Ctx, fx: &Fx) {
         else { l.rejected_seeds.push(format!("list_response.{name}: attribute to respell not found in the library's output")) }
     }
     for (p, name, doc) in &spell {
-        if let Err(e) = wf_check(doc.as_bytes()) { ctx.machinery_error(format!("hand-written seed {name} is not well-formed: {e}")) }
+        if let Err(e) = wf_check(doc.as_bytes()) {
+            // the list_response.* documents derive from the library's own output: if that is malformed the
+            // well-formedness oracle reports it where it is written; here the document is merely no seed
+            if name.starts_with("list_response.") { l.rejected_seeds.push(format!("{name}: derived from malformed library output: {e}")); continue }
+            ctx.machinery_error(format!("hand-written seed {name} is not well-formed: {e}"))
+        }
         seed_case(ctx, &mut l, *p, name, doc.as_bytes(), true);
     }
     // a not-after with fractional seconds (xsd:dateTime admits them; chrono's DateTime carries them)
